@@ -5,6 +5,7 @@ package quic
 import (
 	"context"
 	"fmt"
+	"io"
 	"net"
 	"time"
 
@@ -173,47 +174,89 @@ type verifLGReader interface {
 	SetReadDeadline(time.Time) error
 }
 
-// accept drains the accept queues (public API, a context that is already cancelled never blocks).
-func (v *VerifLGConn) accept() {
+// AcceptOne: one AcceptStream / AcceptUniStream (public API; a context that is already cancelled never
+// blocks). Returns the stream id, or -1 when no stream is waiting.
+func (v *VerifLGConn) AcceptOne(uni bool) int64 {
 	ctx, cancel := context.WithCancel(context.Background())
 	cancel()
-	for {
-		s, err := v.C.AcceptStream(ctx)
-		if err != nil {
-			break
-		}
-		v.readers[s.StreamID()] = s
-	}
-	for {
+	if uni {
 		s, err := v.C.AcceptUniStream(ctx)
 		if err != nil {
-			break
+			return -1
 		}
 		v.readers[s.StreamID()] = s
+		return int64(s.StreamID())
+	}
+	s, err := v.C.AcceptStream(ctx)
+	if err != nil {
+		return -1
+	}
+	v.readers[s.StreamID()] = s
+	return int64(s.StreamID())
+}
+
+// acceptFor: the application accepts the streams of id's kind, in order, until it holds stream id (streams the
+// peer opened after it stay in the accept queue).
+func (v *VerifLGConn) acceptFor(id protocol.StreamID) {
+	if id.InitiatedBy() != protocol.PerspectiveServer {
+		return
+	}
+	for range 1 << 16 {
+		if _, ok := v.readers[id]; ok {
+			return
+		}
+		if v.AcceptOne(id.Type() == protocol.StreamTypeUni) < 0 {
+			return
+		}
 	}
 }
 
-// ReadFrom: the application reads up to n bytes the peer sent on stream id, without blocking.
-func (v *VerifLGConn) ReadFrom(id int64, n int) (int, bool) {
-	v.accept()
+// CloseSend: the application closes its send side of a bidirectional stream (public API).
+func (v *VerifLGConn) CloseSend(id int64) bool {
+	v.acceptFor(protocol.StreamID(id))
+	s, ok := v.readers[protocol.StreamID(id)].(io.Closer)
+	if !ok {
+		return false
+	}
+	s.Close()
+	return true
+}
+
+// StopReading: the application cancels reading a stream it holds (public API CancelRead).
+func (v *VerifLGConn) StopReading(id int64) bool {
+	v.acceptFor(protocol.StreamID(id))
+	s, ok := v.readers[protocol.StreamID(id)].(interface{ CancelRead(StreamErrorCode) })
+	if !ok {
+		return false
+	}
+	s.CancelRead(7)
+	return true
+}
+
+// ReadFrom: the application reads up to n bytes the peer sent on stream id, without blocking; eof: a Read
+// returned io.EOF.
+func (v *VerifLGConn) ReadFrom(id int64, n int) (got int, eof, ok bool) {
+	v.acceptFor(protocol.StreamID(id))
 	rs, ok := v.readers[protocol.StreamID(id)]
 	if !ok {
-		return 0, false
+		return 0, false, false
 	}
 	// (the deadline is checked before buffered data is looked at: it must lie in the future; the driver
 	// only asks for bytes the peer has sent, so a Read never waits for it)
 	rs.SetReadDeadline(time.Now().Add(200 * time.Millisecond))
-	got := 0
 	buf := make([]byte, 64<<10)
 	for got < n {
 		k := min(n-got, len(buf))
 		m, err := rs.Read(buf[:k])
 		got += m
+		if err == io.EOF {
+			eof = true
+		}
 		if err != nil || m == 0 {
 			break
 		}
 	}
-	return got, true
+	return got, eof, true
 }
 
 // VerifLGOut is what the client would put into its next packet.
@@ -224,7 +267,8 @@ type VerifLGOut struct {
 	RetireConnIDs  []uint64
 }
 
-// Pack is the MAX_DATA step of Conn.sendPackets followed by the real framer composing control frames.
+// Pack is the MAX_DATA step of Conn.sendPackets followed by the real framer composing control frames (and the
+// STREAM frames that carry a FIN), until the framer has nothing left.
 func (v *VerifLGConn) Pack(at time.Duration) VerifLGOut {
 	c := v.C
 	now := v.at(at)
@@ -233,9 +277,16 @@ func (v *VerifLGConn) Pack(at time.Duration) VerifLGOut {
 		c.framer.QueueControlFrame(&wire.MaxDataFrame{MaximumData: offset})
 	}
 	for range 64 {
-		frames, _, _ := c.framer.Append(nil, nil, 1200, now, protocol.Version1)
-		if len(frames) == 0 {
+		frames, streamFrames, _ := c.framer.Append(nil, nil, 1200, now, protocol.Version1)
+		if len(frames) == 0 && len(streamFrames) == 0 {
 			break
+		}
+		// STREAM frames (the application never writes: these are the FINs of closed send sides) leave and the peer
+		// acknowledges them: the send side of the stream is done
+		for _, sf := range streamFrames {
+			if sf.Handler != nil {
+				sf.Handler.OnAcked(sf.Frame)
+			}
 		}
 		for _, f := range frames {
 			switch x := f.Frame.(type) {
